@@ -1,5 +1,25 @@
-(* C05 — property theorems (bootstrap stage; see DESIGN.md section 6). *)
-From Verif Require Import Inflate.
-Theorem C05_spec_inflater_runs : status (inflate [] [3;0]) = Done /\ out (inflate [] [3;0]) = [].
-Proof. vm_compute. split; reflexivity. Qed.
-Print Assumptions C05_spec_inflater_runs.
+(* C05 — property theorems.  Model: RModel/Reader.v.  Known finding F-C05b: sources that are io.ByteReaders but not *bufio.Reader.
+   Only statements, each closed by `exact`, followed by Print Assumptions. *)
+From Verif Require Import Reader ReaderProofs InflateMono.
+Open Scope N_scope.
+
+(* once the deliveries contain a complete stream the run ends having consumed exactly
+   ceil(bitpos/8) source bytes: the stream and nothing of what follows it *)
+Theorem C05_exact_consumption : forall dict chunks term k,
+  status (inflate dict (concat (firstn k chunks))) = Done ->
+  (rused (rrun dict chunks term) <= k)%nat /\
+  rconsumed (rrun dict chunks term) = (bitpos (inflate dict (concat (firstn k chunks))) + 7) / 8.
+Proof. exact (complete_stream_needs_no_more_input inflate_mono inflate_never_fuel). Qed.
+Print Assumptions C05_exact_consumption.
+
+(* ... and that count is the length of the stream: cutting the input there changes nothing, and
+   a shorter input is not complete *)
+Theorem C05_stream_ends_at_bitpos : forall dict s, status (inflate dict s) = Done ->
+  inflate dict (firstn (N.to_nat ((bitpos (inflate dict s) + 7) / 8)) s) = inflate dict s.
+Proof. exact inflate_done_exact. Qed.
+Print Assumptions C05_stream_ends_at_bitpos.
+Theorem C05_no_shorter_stream : forall dict s t,
+  status (inflate dict s) = NeedInput -> status (inflate dict (s ++ t)) = Done ->
+  8 * N.of_nat (length s) < bitpos (inflate dict (s ++ t)).
+Proof. exact inflate_need. Qed.
+Print Assumptions C05_no_shorter_stream.
